@@ -226,4 +226,1325 @@ theorem canonBase_ok {vt : VTree} {ow} {es : List Elem} {r : Ptr}
         · cases h
     · cases h
 
+
+/-! ## the recursive call, abstractly -/
+
+/-- what the loops assume about the recursive `and` call: it keeps the state invariant `P`,
+returns well formed pointers and computes the conjunction -/
+def AndOK {σ : Type} (P : σ → Prop) (vt : VTree) (andF : AndF σ) : Prop :=
+  ∀ st a b st' r, P st → WF vt a → WF vt b → andF st a b = some (st', r) →
+    P st' ∧ WF vt r ∧ ∀ asg, r.eval asg = (a.eval asg && b.eval asg)
+
+theorem orF_ok {σ : Type} {P : σ → Prop} {vt : VTree} {andF : AndF σ} (hand : AndOK P vt andF)
+    {st a b st' r} (hP : P st) (wa : WF vt a) (wb : WF vt b) (h : orF andF st a b = some (st', r)) :
+    P st' ∧ WF vt r ∧ ∀ asg, r.eval asg = (a.eval asg || b.eval asg) := by
+  simp only [orF] at h
+  split at h
+  · rename_i st1 r1 h1
+    cases h
+    obtain ⟨hp, wr, er⟩ := hand _ _ _ _ _ hP (WF_neg wa) (WF_neg wb) h1
+    refine ⟨hp, WF_neg wr, fun asg => ?_⟩
+    rw [eval_neg, er, eval_neg, eval_neg]; cases a.eval asg <;> cases b.eval asg <;> rfl
+  · cases h
+
+/-! ## compress -/
+
+theorem swapRemoveHead_mem {x e : Elem} {xs : List Elem} (h : e ∈ swapRemoveHead (x :: xs)) :
+    e ∈ xs := by
+  cases xs with
+  | nil => simp [swapRemoveHead] at h
+  | cons y ys =>
+    simp only [swapRemoveHead, List.mem_cons] at h
+    rcases h with rfl | h
+    · exact List.getLast_mem _
+    · exact List.dropLast_subset _ h
+
+theorem swapRemoveHead_cnt (a : Assign) (x : Elem) (xs : List Elem) :
+    cnt a (swapRemoveHead (x :: xs)) = cnt a xs := by
+  cases xs with
+  | nil => simp [swapRemoveHead]
+  | cons y ys =>
+    simp only [swapRemoveHead]
+    have h := List.dropLast_concat_getLast (l := y :: ys) (by simp)
+    conv => rhs; rw [← h]
+    rw [cnt_cons, cnt_append, cnt_cons, cnt_nil]; omega
+
+theorem swapRemoveHead_eval (a : Assign) (x : Elem) (xs : List Elem) :
+    evalElems a (swapRemoveHead (x :: xs)) = evalElems a xs := by
+  cases xs with
+  | nil => simp [swapRemoveHead]
+  | cons y ys =>
+    simp only [swapRemoveHead]
+    have h := List.dropLast_concat_getLast (l := y :: ys) (by simp)
+    conv => rhs; rw [← h]
+    rw [evalElems_cons, evalElems_append, evalElems_cons, evalElems_nil]
+    generalize evalElems a (y :: ys).dropLast = d
+    cases d <;> simp
+
+theorem swapRemoveHead_length (x : Elem) (xs : List Elem) :
+    (swapRemoveHead (x :: xs)).length = xs.length := by
+  cases xs with
+  | nil => rfl
+  | cons y ys => simp [swapRemoveHead]
+
+section compress
+variable {σ : Type} {P : σ → Prop} {vt : VTree} {andF : AndF σ} {ow : Option Nat}
+
+theorem compressInner_ok (hand : AndOK P vt andF) (s : Ptr) :
+    ∀ (n : Nat) (st : σ) (p : Ptr) (done rem : List Elem) (st' : σ) (p' : Ptr) (out : List Elem),
+    P st → WF vt p → DepW ow p → ElemsOK vt ow done → ElemsOK vt ow rem →
+    compressInner andF s n st p done rem = some (st', p', out) →
+    P st' ∧ WF vt p' ∧ DepW ow p' ∧ ElemsOK vt ow out ∧
+      ∀ a, cnt a ((p, s) :: (done ++ rem)) ≤ 1 →
+        cnt a ((p', s) :: out) = cnt a ((p, s) :: (done ++ rem)) ∧
+        evalElems a ((p', s) :: out) = evalElems a ((p, s) :: (done ++ rem)) := by
+  intro n
+  induction n with
+  | zero =>
+    intro st p done rem st' p' out hP wp dp hd hr h
+    simp only [compressInner] at h
+    cases h
+    refine ⟨hP, wp, dp, ?_, fun a _ => ⟨rfl, rfl⟩⟩
+    intro e he
+    rcases List.mem_append.1 he with h | h
+    · exact hd e h
+    · exact hr e h
+  | succ n ih =>
+    intro st p done rem st' p' out hP wp dp hd hr h
+    cases rem with
+    | nil =>
+      simp only [compressInner] at h
+      cases h
+      exact ⟨hP, wp, dp, hd, fun a _ => by simp⟩
+    | cons x rest =>
+      obtain ⟨q, t⟩ := x
+      simp only [compressInner] at h
+      have hx := hr (q, t) (List.mem_cons_self ..)
+      have hrest : ElemsOK vt ow rest := fun e he => hr e (List.mem_cons_of_mem _ he)
+      split at h
+      · rename_i hst
+        split at h
+        · cases h
+        · rename_i st1 p1 hor
+          obtain ⟨hP1, wp1, ep1⟩ := orF_ok hand hP wp hx.1 hor
+          have dp1 : DepW ow p1 := DepW_or dp hx.2.2 ep1
+          have hrem' : ElemsOK vt ow (swapRemoveHead ((q, t) :: rest)) :=
+            fun e he => hrest e (swapRemoveHead_mem he)
+          obtain ⟨hP', wp', dp', hout, hsem⟩ := ih _ _ _ _ _ _ _ hP1 wp1 dp1 hd hrem' h
+          refine ⟨hP', wp', dp', hout, ?_⟩
+          intro a ha
+          have e1 : cnt a ((p1, s) :: (done ++ swapRemoveHead ((q, t) :: rest))) =
+              cnt a ((p, s) :: (done ++ (q, t) :: rest)) := by
+            rw [cnt_cons, cnt_append, swapRemoveHead_cnt, cnt_cons, cnt_append, cnt_cons]
+            rw [cnt_cons, cnt_append, cnt_cons] at ha
+            simp only [ep1 a]
+            simp only at ha ⊢
+            cases hp : p.eval a <;> cases hq : q.eval a <;> simp [hp, hq] at ha ⊢ <;> omega
+          have e2 : evalElems a ((p1, s) :: (done ++ swapRemoveHead ((q, t) :: rest))) =
+              evalElems a ((p, s) :: (done ++ (q, t) :: rest)) := by
+            rw [evalElems_cons, evalElems_append, swapRemoveHead_eval, evalElems_cons,
+              evalElems_append, evalElems_cons]
+            simp only [ep1 a, hst]
+            cases p.eval a <;> cases q.eval a <;> cases t.eval a <;>
+              cases evalElems a done <;> cases evalElems a rest <;> rfl
+          obtain ⟨h1, h2⟩ := hsem a (by rw [e1]; exact ha)
+          exact ⟨h1.trans e1, h2.trans e2⟩
+      · have hd' : ElemsOK vt ow (done ++ [(q, t)]) := by
+          intro e he
+          rcases List.mem_append.1 he with h' | h'
+          · exact hd e h'
+          · simp only [List.mem_singleton] at h'; subst h'; exact hx
+        obtain ⟨hP', wp', dp', hout, hsem⟩ := ih _ _ _ _ _ _ _ hP wp dp hd' hrest h
+        refine ⟨hP', wp', dp', hout, ?_⟩
+        intro a ha
+        have e : (done ++ [(q, t)]) ++ rest = done ++ (q, t) :: rest := by simp
+        rw [e] at hsem
+        exact hsem a ha
+
+theorem compressOuter_ok (hand : AndOK P vt andF) :
+    ∀ (n : Nat) (st : σ) (l : List Elem) (st' : σ) (out : List Elem),
+    P st → ElemsOK vt ow l → compressOuter andF n st l = some (st', out) →
+    P st' ∧ ElemsOK vt ow out ∧
+      ∀ a, cnt a l ≤ 1 → cnt a out = cnt a l ∧ evalElems a out = evalElems a l := by
+  intro n
+  induction n with
+  | zero =>
+    intro st l st' out hP hl h
+    simp only [compressOuter] at h; cases h
+    exact ⟨hP, hl, fun a _ => ⟨rfl, rfl⟩⟩
+  | succ n ih =>
+    intro st l st' out hP hl h
+    cases l with
+    | nil =>
+      simp only [compressOuter] at h; cases h
+      exact ⟨hP, hl, fun a _ => ⟨rfl, rfl⟩⟩
+    | cons x rest =>
+      obtain ⟨p, s⟩ := x
+      simp only [compressOuter] at h
+      have hx := hl (p, s) (List.mem_cons_self ..)
+      have hrest : ElemsOK vt ow rest := fun e he => hl e (List.mem_cons_of_mem _ he)
+      split at h
+      · cases h
+      · rename_i st1 p' rest' hin
+        obtain ⟨hP1, wp', dp', hout1, hsem1⟩ :=
+          compressInner_ok hand s _ _ _ _ _ _ _ _ hP hx.1 hx.2.2 (fun e he => by cases he) hrest hin
+        split at h
+        · cases h
+        · rename_i st2 out2 hrec
+          cases h
+          obtain ⟨hP2, hout2, hsem2⟩ := ih _ _ _ _ hP1 hout1 hrec
+          refine ⟨hP2, ?_, ?_⟩
+          · intro e he
+            rcases List.mem_cons.1 he with rfl | h'
+            · exact ⟨wp', hx.2.1, dp'⟩
+            · exact hout2 e h'
+          · intro a ha
+            obtain ⟨c1, v1⟩ := hsem1 a (by simpa using ha)
+            simp only [List.nil_append] at c1 v1
+            have hle : cnt a rest' ≤ 1 := by
+              rw [cnt_cons] at c1; omega
+            obtain ⟨c2, v2⟩ := hsem2 a hle
+            constructor
+            · rw [← c1, cnt_cons, cnt_cons, c2]
+            · rw [← v1, evalElems_cons, evalElems_cons, v2]
+
+theorem compress_ok (hand : AndOK P vt andF) {st : σ} {l : List Elem} {st' : σ} {out : List Elem}
+    (hP : P st) (hl : ElemsOK vt ow l) (hpart : Partition l)
+    (h : compress andF st l = some (st', out)) :
+    P st' ∧ ElemsOK vt ow out ∧ Partition out ∧ ∀ a, evalElems a out = evalElems a l := by
+  obtain ⟨h1, h2, h3⟩ := compressOuter_ok hand _ _ _ _ _ hP hl h
+  refine ⟨h1, h2, fun a => ?_, fun a => ?_⟩
+  · rw [(h3 a (by rw [hpart a]; exact Nat.le_refl 1)).1]; exact hpart a
+  · exact (h3 a (by rw [hpart a]; exact Nat.le_refl 1)).2
+
+/-- `canonicalize` returns a well formed pointer denoting `⋁ prime ∧ sub` of its input, provided
+the input primes partition -/
+theorem canonicalize_ok (hand : AndOK P vt andF) {cmpr : Bool} {st : σ} {l : List Elem}
+    {table : Nat} {st' : σ} {r : Ptr} (hP : P st) (hl : ElemsOK vt (vt.leftLeaf? table) l)
+    (hpart : Partition l) (hint : Internal vt table)
+    (h : canonicalize cmpr andF st l table = some (st', r)) :
+    P st' ∧ WF vt r ∧ ∀ a, r.eval a = evalElems a l := by
+  simp only [canonicalize] at h
+  split at h
+  · rename_i r0 hb
+    cases h
+    exact ⟨hP, canonBase_ok hl hpart hb⟩
+  · split at h
+    · split at h
+      · cases h
+      · rename_i st1 l1 hc
+        obtain ⟨hP1, hl1, hpart1, hev1⟩ := compress_ok hand hP hl hpart hc
+        split at h
+        · rename_i r0 hb
+          cases h
+          obtain ⟨w, e⟩ := canonBase_ok hl1 hpart1 hb
+          exact ⟨hP1, w, fun a => by rw [e, hev1]⟩
+        · simp only [Option.map_eq_some_iff] at h
+          obtain ⟨r0, hu, he⟩ := h
+          cases he
+          obtain ⟨w, e⟩ := uniqueOr_ok hl1 hpart1 hint hu
+          exact ⟨hP1, w, fun a => by rw [e, hev1]⟩
+    · simp only [Option.map_eq_some_iff] at h
+      obtain ⟨r0, hu, he⟩ := h
+      cases he
+      obtain ⟨w, e⟩ := uniqueOr_ok hl hpart hint hu
+      exact ⟨hP, w, e⟩
+
+end compress
+
+
+/-! ## the elements of a node -/
+
+theorem isRLAt_leftLeaf {vt : VTree} {k : Nat} :
+    vt.isRLAt k = true ↔ ∃ w, vt.leftLeaf? k = some w := by
+  simp only [VTree.isRLAt, VTree.leftLeaf?]
+  cases h : vt.sub? 0 k with
+  | none => simp
+  | some s =>
+    cases s with
+    | leaf v => simp [VTree.isRightLinear]
+    | node l r => cases l <;> simp [VTree.isRightLinear]
+
+theorem leftLeaf_sub {vt : VTree} {k w : Nat} (h : vt.leftLeaf? k = some w) :
+    ∃ r, vt.sub? 0 k = some (.node (.leaf w) r) := by
+  simp only [VTree.leftLeaf?] at h
+  split at h
+  · rename_i w' r hs; cases h; exact ⟨r, hs⟩
+  · cases h
+
+theorem leftLeaf_none {vt : VTree} {k : Nat} (h : vt.isRLAt k = false) : vt.leftLeaf? k = none := by
+  cases h' : vt.leftLeaf? k with
+  | none => rfl
+  | some w => rw [(isRLAt_leftLeaf).2 ⟨w, h'⟩] at h; cases h
+
+theorem depOnly_lit (l : Nat) (p : Bool) : DepOnly (.lit l p) l := by
+  intro a a' e; simp [eval_lit, e]
+
+/-- the complement-adjusted elements of a well formed node are well formed, partition, and
+denote the node -/
+theorem elems?_ok {vt : VTree} {r : Ptr} {es : List Elem} (wr : WF vt r) (h : r.elems? = some es) :
+    ElemsOK vt (vt.leftLeaf? (vtreeIndex vt r)) es ∧ Partition es ∧ Internal vt (vtreeIndex vt r) ∧
+      ∀ a, evalElems a es = r.eval a := by
+  cases r with
+  | tru => cases h
+  | fls => cases h
+  | lit v p => cases h
+  | bdd c l i lo hi =>
+    simp only [Ptr.elems?, Option.some.injEq] at h
+    subst h
+    obtain ⟨hl, hint, hw, wlo, whi⟩ := wr
+    have hd : ∀ pol, DepW (vt.leftLeaf? i) (.lit l pol) := by
+      intro pol w hw'; rw [hw w hw']; exact depOnly_lit l pol
+    refine ⟨?_, ?_, hint, ?_⟩
+    · intro e he
+      simp only [List.mem_cons, List.not_mem_nil, or_false] at he
+      rcases he with rfl | rfl
+      · exact ⟨hl, by cases c <;> simp [WF_neg, whi], hd _⟩
+      · exact ⟨hl, by cases c <;> simp [WF_neg, wlo], hd _⟩
+    · intro a
+      simp only [cnt_cons, cnt_nil, eval_lit]
+      cases a l <;> simp
+    · intro a
+      simp only [evalElems_cons, evalElems_nil, eval_lit, eval_bdd]
+      cases c <;> cases a l <;> simp
+  | dec c i es0 =>
+    simp only [Ptr.elems?, Option.some.injEq] at h
+    subst h
+    obtain ⟨hint, hpart, hok⟩ := WF_dec.1 wr
+    cases c
+    · exact ⟨hok, hpart, hint, fun a => by simp [eval_dec]⟩
+    · refine ⟨ElemsOK_negSubs hok, fun a => by simp only [if_true]; rw [cnt_negSubs]; exact hpart a,
+        hint, ?_⟩
+      intro a
+      simp only [if_true, eval_dec, evalElems_negSubs (hpart a)]
+      simp
+
+/-! ## the product loops of `and_cartesian` / `and_prime_desc` -/
+
+section loops
+variable {σ : Type} {P : σ → Prop} {vt : VTree} {andF : AndF σ} {ow : Option Nat}
+
+/-- postcondition of the inner loop for the prime/sub pair `(p1, s1)` against the elements `eb` -/
+def InnerPost (vt : VTree) (ow : Option Nat) (p1 s1 : Ptr) (eb : List Elem) : LoopRes → Prop
+  | .elems l => ElemsOK vt ow l ∧ ∀ a, cnt a eb ≤ 1 →
+      cnt a l = (if p1.eval a then cnt a eb else 0) ∧
+      evalElems a l = (p1.eval a && s1.eval a && evalElems a eb)
+  | .early r => r = .tru ∧ ∀ a, (p1.eval a && s1.eval a && evalElems a eb) = true
+
+theorem innerLoop_ok (hand : AndOK P vt andF) (brk : Bool) {p1 s1 : Ptr}
+    (wp1 : WF vt p1) (ws1 : WF vt s1) (dp1 : DepW ow p1) :
+    ∀ (eb : List Elem) (st st' : σ) (res : LoopRes), P st → ElemsOK vt ow eb →
+    innerLoop andF brk p1 s1 st eb = some (st', res) →
+    P st' ∧ InnerPost vt ow p1 s1 eb res := by
+  intro eb
+  induction eb with
+  | nil =>
+    intro st st' res hP _ h
+    simp only [innerLoop] at h
+    cases h
+    refine ⟨hP, ?_⟩
+    simp only [InnerPost]
+    exact ⟨fun e he => (by cases he), fun a _ => (by simp)⟩
+  | cons x rest ih =>
+    intro st st' res hP hok h
+    obtain ⟨p2, s2⟩ := x
+    have hx := hok (p2, s2) (List.mem_cons_self ..)
+    have hrest : ElemsOK vt ow rest := fun e he => hok e (List.mem_cons_of_mem _ he)
+    simp only [innerLoop] at h
+    split at h
+    · cases h
+    · rename_i st1 p hp
+      obtain ⟨hP1, wp, ep⟩ := hand _ _ _ _ _ hP wp1 hx.1 hp
+      split at h
+      · -- the product prime is the false constant: skip
+        rename_i hpf
+        have hpf' : ∀ a, (p1.eval a && p2.eval a) = false := fun a => by
+          rw [← ep a]; exact isFalse_eval hpf a
+        obtain ⟨hP', hres⟩ := ih _ _ _ hP1 hrest h
+        refine ⟨hP', ?_⟩
+        cases res with
+        | elems l =>
+          simp only [InnerPost] at hres ⊢
+          refine ⟨hres.1, fun a ha => ?_⟩
+          have hpa := hpf' a
+          rw [cnt_cons] at ha
+          obtain ⟨c, v⟩ := hres.2 a (by omega)
+          rw [c, v, cnt_cons, evalElems_cons]
+          cases h1 : p1.eval a <;> cases h2 : p2.eval a <;> simp [h1, h2] at hpa ⊢
+        | early r =>
+          simp only [InnerPost] at hres ⊢
+          refine ⟨hres.1, fun a => ?_⟩
+          have hpa := hpf' a
+          have := hres.2 a
+          rw [evalElems_cons]
+          cases h1 : p1.eval a <;> cases h2 : p2.eval a <;> simp [h1, h2] at hpa this ⊢
+          exact this
+      · split at h
+        · cases h
+        · rename_i st2 s hs
+          obtain ⟨hP2, ws, es⟩ := hand _ _ _ _ _ hP1 ws1 hx.2.1 hs
+          have dp : DepW ow p := DepW_and dp1 hx.2.2 ep
+          split at h
+          · -- early exit: both are the true constant
+            rename_i hts
+            cases h
+            simp only [Bool.and_eq_true] at hts
+            refine ⟨hP2, ?_⟩
+            simp only [InnerPost]
+            refine ⟨trivial, fun a => ?_⟩
+            have e1 := isTrue_eval hts.1 a
+            have e2 := isTrue_eval hts.2 a
+            rw [ep a] at e1; rw [es a] at e2
+            simp only [Bool.and_eq_true] at e1 e2
+            simp [evalElems_cons, e1.1, e1.2, e2.1, e2.2]
+          · split at h
+            · -- implied prime: stop
+              rename_i hbrk
+              cases h
+              simp only [Bool.and_eq_true, decide_eq_true_eq] at hbrk
+              obtain ⟨_, hpp⟩ := hbrk
+              refine ⟨hP2, ?_⟩
+              simp only [InnerPost]
+              refine ⟨?_, fun a ha => ?_⟩
+              · intro e he
+                simp only [List.mem_singleton] at he; subst he
+                exact ⟨wp, ws, dp⟩
+              · have epa := ep a
+                rw [← hpp] at epa
+                rw [cnt_cons] at ha
+                simp only [cnt_cons, cnt_nil, evalElems_cons, evalElems_nil, es a, ← hpp]
+                cases h1 : p1.eval a <;> cases h2 : p2.eval a <;> simp [h1, h2] at epa ha ⊢
+                have h0 : cnt a rest = 0 := by omega
+                simp [h0, evalElems_of_cnt_zero h0]
+            · split at h
+              · cases h
+              · rename_i st3 r hrec
+                cases h
+                obtain ⟨hP', hres⟩ := ih _ _ _ hP2 hrest hrec
+                refine ⟨hP', ?_⟩
+                simp only [InnerPost] at hres ⊢
+                refine ⟨hres.1, fun a => ?_⟩
+                have := hres.2 a
+                rw [evalElems_cons]
+                cases h1 : p1.eval a <;> cases h2 : s1.eval a <;> simp [h1, h2] at this ⊢
+                simp [this]
+              · rename_i st3 l hrec
+                cases h
+                obtain ⟨hP', hres⟩ := ih _ _ _ hP2 hrest hrec
+                refine ⟨hP', ?_⟩
+                simp only [InnerPost] at hres ⊢
+                refine ⟨?_, fun a ha => ?_⟩
+                · intro e he
+                  rcases List.mem_cons.1 he with rfl | h'
+                  · exact ⟨wp, ws, dp⟩
+                  · exact hres.1 e h'
+                · rw [cnt_cons] at ha
+                  obtain ⟨c, v⟩ := hres.2 a (by omega)
+                  rw [cnt_cons, evalElems_cons, c, v, cnt_cons, evalElems_cons]
+                  simp only [ep a, es a]
+                  cases h1 : p1.eval a <;> cases h2 : p2.eval a <;> cases h3 : s1.eval a <;>
+                    simp [h1, h2, h3]
+
+/-- postcondition of the outer product loop over the elements `ea` against `eb` -/
+def ProdPost (vt : VTree) (ow : Option Nat) (ea eb : List Elem) : LoopRes → Prop
+  | .elems l => ElemsOK vt ow l ∧ ∀ a, cnt a l = cnt a ea ∧
+      evalElems a l = (evalElems a ea && evalElems a eb)
+  | .early r => r = .tru ∧ ∀ a, (evalElems a ea && evalElems a eb) = true
+
+theorem find?_prime {eb : List Elem} {p1 q s2 : Ptr}
+    (h : eb.find? (fun e => decide (e.1 = p1)) = some (q, s2)) : q = p1 ∧ (q, s2) ∈ eb := by
+  have h1 := List.find?_some h
+  have h2 := List.mem_of_find?_eq_some h
+  simp only [decide_eq_true_eq] at h1
+  exact ⟨h1, h2⟩
+
+theorem prodLoop_ok (hand : AndOK P vt andF) (cart : Bool) {eb : List Elem}
+    (hokb : ElemsOK vt ow eb) (hpb : Partition eb) :
+    ∀ (ea : List Elem) (st st' : σ) (res : LoopRes), P st → ElemsOK vt ow ea →
+    prodLoop andF cart eb st ea = some (st', res) →
+    P st' ∧ ProdPost vt ow ea eb res := by
+  intro ea
+  induction ea with
+  | nil =>
+    intro st st' res hP _ h
+    simp only [prodLoop] at h
+    cases h
+    refine ⟨hP, ?_⟩
+    simp only [ProdPost]
+    exact ⟨fun e he => (by cases he), fun a => (by simp)⟩
+  | cons x rest ih =>
+    intro st st' res hP hok h
+    obtain ⟨p1, s1⟩ := x
+    have hx := hok (p1, s1) (List.mem_cons_self ..)
+    have hrest : ElemsOK vt ow rest := fun e he => hok e (List.mem_cons_of_mem _ he)
+    simp only [prodLoop] at h
+    split at h
+    · -- equal prime found in `b`
+      rename_i q s2 hfind
+      have hf : eb.find? (fun e => decide (e.1 = p1)) = some (q, s2) := by
+        cases cart
+        · simp at hfind
+        · simpa using hfind
+      obtain ⟨hq, hmem⟩ := find?_prime hf
+      subst hq
+      have hy := hokb _ hmem
+      split at h
+      · cases h
+      · rename_i st1 s hs
+        obtain ⟨hP1, ws, es⟩ := hand _ _ _ _ _ hP hx.2.1 hy.2.1 hs
+        have key : ∀ a, (q.eval a && s.eval a) = (q.eval a && s1.eval a && evalElems a eb) := by
+          intro a
+          cases hqa : q.eval a
+          · simp
+          · rw [evalElems_of_mem (hpb a) hmem hqa, es a]; simp
+        split at h
+        · cases h
+        · rename_i st2 r hrec
+          cases h
+          obtain ⟨hP', hres⟩ := ih _ _ _ hP1 hrest hrec
+          refine ⟨hP', ?_⟩
+          simp only [ProdPost] at hres ⊢
+          refine ⟨hres.1, fun a => ?_⟩
+          have := hres.2 a
+          rw [evalElems_cons]
+          simp only [Bool.and_eq_true] at this ⊢
+          simp [this.1, this.2]
+        · rename_i st2 l hrec
+          cases h
+          obtain ⟨hP', hres⟩ := ih _ _ _ hP1 hrest hrec
+          refine ⟨hP', ?_⟩
+          simp only [ProdPost] at hres ⊢
+          refine ⟨?_, fun a => ?_⟩
+          · intro e he
+            rcases List.mem_cons.1 he with rfl | h'
+            · exact ⟨hx.1, ws, hx.2.2⟩
+            · exact hres.1 e h'
+          · obtain ⟨c, v⟩ := hres.2 a
+            rw [cnt_cons, cnt_cons, c, evalElems_cons, evalElems_cons, v]
+            refine ⟨rfl, ?_⟩
+            simp only [key a]
+            cases q.eval a <;> cases s1.eval a <;> cases evalElems a eb <;> simp
+    · split at h
+      · cases h
+      · rename_i st1 r hin
+        cases h
+        obtain ⟨hP1, hpost⟩ := innerLoop_ok hand cart hx.1 hx.2.1 hx.2.2 eb _ _ _ hP hokb hin
+        refine ⟨hP1, ?_⟩
+        simp only [InnerPost, ProdPost] at hpost ⊢
+        refine ⟨hpost.1, fun a => ?_⟩
+        have := hpost.2 a
+        rw [evalElems_cons]
+        simp only [Bool.and_eq_true] at this ⊢
+        simp [this.1.1, this.1.2, this.2]
+      · rename_i st1 l1 hin
+        obtain ⟨hP1, hpost⟩ := innerLoop_ok hand cart hx.1 hx.2.1 hx.2.2 eb _ _ _ hP hokb hin
+        simp only [InnerPost] at hpost
+        split at h
+        · cases h
+        · rename_i st2 r hrec
+          cases h
+          obtain ⟨hP', hres⟩ := ih _ _ _ hP1 hrest hrec
+          refine ⟨hP', ?_⟩
+          simp only [ProdPost] at hres ⊢
+          refine ⟨hres.1, fun a => ?_⟩
+          have := hres.2 a
+          rw [evalElems_cons]
+          simp only [Bool.and_eq_true] at this ⊢
+          simp [this.1, this.2]
+        · rename_i st2 l hrec
+          cases h
+          obtain ⟨hP', hres⟩ := ih _ _ _ hP1 hrest hrec
+          refine ⟨hP', ?_⟩
+          simp only [ProdPost] at hres ⊢
+          refine ⟨?_, fun a => ?_⟩
+          · intro e he
+            rcases List.mem_append.1 he with h' | h'
+            · exact hpost.1 e h'
+            · exact hres.1 e h'
+          · obtain ⟨c, v⟩ := hres.2 a
+            obtain ⟨c1, v1⟩ := hpost.2 a (by rw [hpb a]; exact Nat.le_refl 1)
+            rw [cnt_append, c1, c, cnt_cons, evalElems_append, v1, v, evalElems_cons, hpb a]
+            refine ⟨by cases p1.eval a <;> simp, ?_⟩
+            cases p1.eval a <;> cases s1.eval a <;> cases evalElems a eb <;> simp
+
+theorem subDescLoop_ok (hand : AndOK P vt andF) {d : Ptr} (wd : WF vt d) :
+    ∀ (es : List Elem) (st st' : σ) (v : List Elem), P st → ElemsOK vt ow es →
+    subDescLoop andF d st es = some (st', v) →
+    P st' ∧ ElemsOK vt ow v ∧ ∀ a, cnt a v = cnt a es ∧
+      evalElems a v = (evalElems a es && d.eval a) := by
+  intro es
+  induction es with
+  | nil =>
+    intro st st' v hP _ h
+    simp only [subDescLoop] at h
+    cases h
+    exact ⟨hP, fun e he => (by cases he), fun a => (by simp)⟩
+  | cons x rest ih =>
+    intro st st' v hP hok h
+    obtain ⟨p, s⟩ := x
+    have hx := hok (p, s) (List.mem_cons_self ..)
+    have hrest : ElemsOK vt ow rest := fun e he => hok e (List.mem_cons_of_mem _ he)
+    simp only [subDescLoop] at h
+    split at h
+    · cases h
+    · rename_i st1 ns hs
+      obtain ⟨hP1, wns, ens⟩ := hand _ _ _ _ _ hP hx.2.1 wd hs
+      split at h
+      · cases h
+      · rename_i st2 v2 hrec
+        cases h
+        obtain ⟨hP', hok', hsem⟩ := ih _ _ _ hP1 hrest hrec
+        refine ⟨hP', ?_, fun a => ?_⟩
+        · intro e he
+          rcases List.mem_cons.1 he with rfl | h'
+          · exact ⟨hx.1, wns, hx.2.2⟩
+          · exact hok' e h'
+        · obtain ⟨c, v⟩ := hsem a
+          rw [cnt_cons, cnt_cons, c, evalElems_cons, evalElems_cons, v]
+          refine ⟨rfl, ?_⟩
+          simp only [ens a]
+          cases p.eval a <;> cases s.eval a <;> cases d.eval a <;> simp
+
+/-! ## the four vtree cases -/
+
+theorem andSubDesc_ok (hand : AndOK P vt andF) {cmpr : Bool} {st st' : σ} {r d res : Ptr}
+    (hP : P st) (wr : WF vt r) (wd : WF vt d)
+    (h : andSubDesc cmpr andF st r d = some (st', res)) :
+    P st' ∧ WF vt res ∧ ∀ a, res.eval a = (r.eval a && d.eval a) := by
+  cases r with
+  | tru => simp [andSubDesc] at h
+  | fls => simp [andSubDesc] at h
+  | lit v p => simp [andSubDesc] at h
+  | bdd c l i lo hi =>
+    obtain ⟨hl, hint, hw, wlo, whi⟩ := wr
+    simp only [andSubDesc] at h
+    split at h
+    · cases h
+    · rename_i st1 lr h1
+      obtain ⟨hP1, wlr, elr⟩ := hand _ _ _ _ _ hP (by cases c <;> simp [WF_neg, wlo]) wd h1
+      split at h
+      · cases h
+      · rename_i st2 hr h2
+        cases h
+        obtain ⟨hP2, whr, ehr⟩ := hand _ _ _ _ _ hP1 (by cases c <;> simp [WF_neg, whi]) wd h2
+        refine ⟨hP2, uniqueBdd_WF hl hint hw wlr whr, fun a => ?_⟩
+        rw [uniqueBdd_eval, elr, ehr, eval_bdd]
+        cases c <;> cases a l <;> simp
+  | dec c i es =>
+    simp only [andSubDesc] at h
+    split at h
+    · cases h
+    · rename_i st1 v hloop
+      obtain ⟨hok, hpart, hint, hev⟩ := elems?_ok wr (es := if c then negSubs es else es) rfl
+      obtain ⟨hP1, hokv, hsem⟩ := subDescLoop_ok hand wd _ _ _ _ hP hok hloop
+      have hpv : Partition v := fun a => by rw [(hsem a).1]; exact hpart a
+      obtain ⟨hP', wres, eres⟩ := canonicalize_ok hand hP1 hokv hpv hint h
+      exact ⟨hP', wres, fun a => by rw [eres, (hsem a).2, hev]⟩
+
+theorem pairD_ok {d : Ptr} (wd : WF vt d) (dd : DepW ow d) :
+    ElemsOK vt ow [(d, .tru), (d.neg, .fls)] ∧ Partition [(d, .tru), (d.neg, .fls)] ∧
+      ∀ a, evalElems a [(d, .tru), (d.neg, .fls)] = d.eval a := by
+  refine ⟨?_, ?_, ?_⟩
+  · intro e he
+    simp only [List.mem_cons, List.not_mem_nil, or_false] at he
+    rcases he with rfl | rfl
+    · exact ⟨wd, WF_tru vt, dd⟩
+    · exact ⟨WF_neg wd, WF_fls vt, DepW_neg dd⟩
+  · intro a; simp only [cnt_cons, cnt_nil, eval_neg]; cases d.eval a <;> simp
+  · intro a; simp
+
+theorem andPrimeDesc_ok (hand : AndOK P vt andF) {cmpr : Bool} {st st' : σ} {r d res : Ptr}
+    (hP : P st) (wr : WF vt r) (wd : WF vt d) (dd : DepW (vt.leftLeaf? (vtreeIndex vt r)) d)
+    (h : andPrimeDesc cmpr andF st r d = some (st', res)) :
+    P st' ∧ WF vt res ∧ ∀ a, res.eval a = (r.eval a && d.eval a) := by
+  simp only [andPrimeDesc] at h
+  split at h
+  · cases h
+  · rename_i er her
+    obtain ⟨hok, hpart, hint, hev⟩ := elems?_ok wr her
+    obtain ⟨hokd, hpd, hevd⟩ := pairD_ok wd dd
+    split at h
+    · cases h
+    · rename_i st1 x hloop
+      cases h
+      obtain ⟨hP1, hpost⟩ := prodLoop_ok hand false hokd hpd _ _ _ _ hP hok hloop
+      simp only [ProdPost] at hpost
+      refine ⟨hP1, by rw [hpost.1]; exact WF_tru vt, fun a => ?_⟩
+      have := hpost.2 a
+      rw [hev, hevd] at this
+      rw [hpost.1, this]; simp
+    · rename_i st1 l hloop
+      obtain ⟨hP1, hpost⟩ := prodLoop_ok hand false hokd hpd _ _ _ _ hP hok hloop
+      simp only [ProdPost] at hpost
+      have hpl : Partition l := fun a => by rw [(hpost.2 a).1]; exact hpart a
+      have hfin : ∀ i, vtreeIndex vt r = i → canonicalize cmpr andF st1 l i = some (st', res) →
+          P st' ∧ WF vt res ∧ ∀ a, res.eval a = (r.eval a && d.eval a) := by
+        intro i hi hc
+        subst hi
+        obtain ⟨hP', wres, eres⟩ := canonicalize_ok hand hP1 hpost.1 hpl hint hc
+        exact ⟨hP', wres, fun a => by rw [eres, (hpost.2 a).2, hev, hevd]⟩
+      split at h
+      · exact hfin _ rfl h
+      · exact hfin _ rfl h
+      · cases h
+
+theorem andCartesian_ok (hand : AndOK P vt andF) {cmpr : Bool} {st st' : σ} {a b res : Ptr}
+    (hP : P st) (wa : WF vt a) (wb : WF vt b) (hidx : vtreeIndex vt a = vtreeIndex vt b)
+    (h : andCartesian vt cmpr andF st a b (vtreeIndex vt a) = some (st', res)) :
+    P st' ∧ WF vt res ∧ ∀ asg, res.eval asg = (a.eval asg && b.eval asg) := by
+  have general : (match a.elems?, b.elems? with
+      | some ea, some eb =>
+        match prodLoop andF true eb st ea with
+        | none => none
+        | some (st', .early x) => some (st', x)
+        | some (st', .elems l) => canonicalize cmpr andF st' l (vtreeIndex vt a)
+      | _, _ => none) = some (st', res) →
+      P st' ∧ WF vt res ∧ ∀ asg, res.eval asg = (a.eval asg && b.eval asg) := by
+    intro h
+    split at h
+    · rename_i ea eb hea heb
+      obtain ⟨hoka, hpa, hinta, heva⟩ := elems?_ok wa hea
+      obtain ⟨hokb, hpb, _, hevb⟩ := elems?_ok wb heb
+      rw [← hidx] at hokb
+      split at h
+      · cases h
+      · rename_i st1 x hloop
+        cases h
+        obtain ⟨hP1, hpost⟩ := prodLoop_ok hand true hokb hpb _ _ _ _ hP hoka hloop
+        simp only [ProdPost] at hpost
+        refine ⟨hP1, by rw [hpost.1]; exact WF_tru vt, fun asg => ?_⟩
+        have := hpost.2 asg
+        rw [heva, hevb] at this
+        rw [hpost.1, this]; simp
+      · rename_i st1 l hloop
+        obtain ⟨hP1, hpost⟩ := prodLoop_ok hand true hokb hpb _ _ _ _ hP hoka hloop
+        simp only [ProdPost] at hpost
+        have hpl : Partition l := fun asg => by rw [(hpost.2 asg).1]; exact hpa asg
+        obtain ⟨hP', wres, eres⟩ := canonicalize_ok hand hP1 hpost.1 hpl hinta h
+        exact ⟨hP', wres, fun asg => by rw [eres, (hpost.2 asg).2, heva, hevb]⟩
+    · cases h
+  simp only [andCartesian] at h
+  split at h
+  · -- both binary at a right-linear node
+    rename_i c l i lo hi hm
+    have hrl : vt.isRLAt (vtreeIndex vt a) = true := by
+      cases hr : vt.isRLAt (vtreeIndex vt a)
+      · rw [hr] at hm; simp at hm
+      · rfl
+    rw [hrl] at hm
+    simp only [if_true] at hm
+    subst hm
+    obtain ⟨hl, hint, hw, wlo, whi⟩ := wa
+    split at h
+    · rename_i bl bh hbl hbh
+      cases b with
+      | bdd c' l' i' lo' hi' =>
+        simp only [Ptr.low?, Ptr.high?, Option.some.injEq] at hbl hbh
+        subst hbl hbh
+        obtain ⟨hl', hint', hw', wlo', whi'⟩ := wb
+        simp only [vtreeIndex] at hidx hrl
+        obtain ⟨w, hw0⟩ := isRLAt_leftLeaf.1 hrl
+        have e1 := hw w hw0
+        have e2 := hw' w (hidx ▸ hw0)
+        have hll : l' = l := by rw [← e1, ← e2]
+        subst hll
+        split at h
+        · cases h
+        · rename_i st1 lr h1
+          obtain ⟨hP1, wlr, elr⟩ := hand _ _ _ _ _ hP (by cases c <;> simp [WF_neg, wlo])
+            (by cases c' <;> simp [WF_neg, wlo']) h1
+          split at h
+          · cases h
+          · rename_i st2 hr h2
+            cases h
+            obtain ⟨hP2, whr, ehr⟩ := hand _ _ _ _ _ hP1 (by cases c <;> simp [WF_neg, whi])
+              (by cases c' <;> simp [WF_neg, whi']) h2
+            refine ⟨hP2, uniqueBdd_WF hl hint hw wlr whr, fun asg => ?_⟩
+            simp only [vtreeIndex]
+            rw [uniqueBdd_eval, elr, ehr, eval_bdd, eval_bdd]
+            cases c <;> cases c' <;> cases asg l' <;> simp
+      | _ => simp [Ptr.low?] at hbl
+    · cases h
+  · exact general h
+
+theorem andIndep_ok {a b res : Ptr} (wa : WF vt a) (wb : WF vt b)
+    (ha : ∃ s, vt.sub? 0 (vtreeIndex vt a) = some s) (hb : ∃ s, vt.sub? 0 (vtreeIndex vt b) = some s)
+    (hlt : vtreeIndex vt a < vtreeIndex vt b)
+    (hka : vt.lca 0 (vtreeIndex vt a) (vtreeIndex vt b) ≠ vtreeIndex vt a)
+    (h : andIndep vt a b (vt.lca 0 (vtreeIndex vt a) (vtreeIndex vt b)) = some res) :
+    WF vt res ∧ ∀ asg, res.eval asg = (a.eval asg && b.eval asg) := by
+  obtain ⟨sa, hsa⟩ := ha
+  obtain ⟨sb, hsb⟩ := hb
+  have hint : Internal vt (vt.lca 0 (vtreeIndex vt a) (vtreeIndex vt b)) :=
+    VTree.lca_internal hsa hsb (by omega)
+  simp only [andIndep] at h
+  split at h
+  · rename_i hrl
+    obtain ⟨w, hw⟩ := isRLAt_leftLeaf.1 hrl
+    obtain ⟨r', hr'⟩ := leftLeaf_sub hw
+    have hk := VTree.lca_rl (Nat.zero_le _) hlt hka hr'
+    have hlab : ∀ l pol, a = .lit l pol → ∀ w', vt.leftLeaf?
+        (vt.lca 0 (vtreeIndex vt a) (vtreeIndex vt b)) = some w' → w' = l := by
+      intro l pol hal w' hw'
+      rw [hw] at hw'; cases hw'
+      subst hal
+      simp only [WF, VTree.hasVar, Option.isSome_iff_exists] at wa
+      obtain ⟨i, hi⟩ := wa
+      simp only [vtreeIndex, hi, Option.getD_some] at hk hr'
+      rw [← hk] at hr'
+      have h1 := VTree.sub?_leftLeaf hr'
+      have h2 := VTree.varIndex?_sub hi
+      rw [h1] at h2; cases h2; rfl
+    split at h
+    · rename_i l
+      cases h
+      refine ⟨uniqueBdd_WF (by simpa [WF] using wa) hint (hlab l true rfl) (WF_fls vt) wb, ?_⟩
+      intro asg; rw [uniqueBdd_eval, eval_lit]; cases asg l <;> simp
+    · rename_i l
+      cases h
+      refine ⟨uniqueBdd_WF (by simpa [WF] using wa) hint (hlab l false rfl) wb (WF_fls vt), ?_⟩
+      intro asg; rw [uniqueBdd_eval, eval_lit]; cases asg l <;> simp
+    · cases h
+  · rename_i hrl
+    have hnone := leftLeaf_none (by simpa using hrl)
+    have hok : ElemsOK vt (vt.leftLeaf? (vt.lca 0 (vtreeIndex vt a) (vtreeIndex vt b)))
+        [(a, b), (a.neg, .fls)] := by
+      rw [hnone]
+      intro e he
+      simp only [List.mem_cons, List.not_mem_nil, or_false] at he
+      rcases he with rfl | rfl
+      · exact ⟨wa, wb, fun w hw => by cases hw⟩
+      · exact ⟨WF_neg wa, WF_fls vt, fun w hw => by cases hw⟩
+    have hpart : Partition [(a, b), (a.neg, .fls)] := by
+      intro asg; simp only [cnt_cons, cnt_nil, eval_neg]; cases a.eval asg <;> simp
+    obtain ⟨w, e⟩ := uniqueOr_ok hok hpart hint h
+    exact ⟨w, fun asg => by rw [e]; simp⟩
+
+end loops
+
+
+/-! ## `and` -/
+
+/-- apply-cache invariant: every cached result is well formed and denotes the conjunction of its
+key -/
+def AppInv (A : CacheImpl (Ptr × Ptr)) (vt : VTree) (s : A.σ) : Prop :=
+  ∀ k r, A.get s k = some r → WF vt r ∧ ∀ a, r.eval a = (k.1.eval a && k.2.eval a)
+
+theorem appInv_empty (A : CacheImpl (Ptr × Ptr)) (vt : VTree) : AppInv A vt A.empty := by
+  intro k r h; rw [A.empty_get] at h; cases h
+
+theorem appInv_insert {A : CacheImpl (Ptr × Ptr)} {vt : VTree} {s : A.σ} {k : Ptr × Ptr} {r : Ptr}
+    (hs : AppInv A vt s) (wr : WF vt r) (er : ∀ a, r.eval a = (k.1.eval a && k.2.eval a)) :
+    AppInv A vt (A.insert s k r) := by
+  intro k' r' h
+  rcases A.lawful _ _ _ _ _ h with ⟨rfl, rfl⟩ | h'
+  · exact ⟨wr, er⟩
+  · exact hs k' r' h'
+
+/-- in the `and_prime_desc` situation (`lca = bv ≠ av`, `av < bv`) the descendant depends only on
+the left leaf when the ancestor node is right-linear -/
+theorem primeDesc_dep {vt : VTree} {x y : Ptr} (wx : WF vt x)
+    (hx1 : x.isTrue = false) (hx2 : x.isFalse = false)
+    (hlt : vtreeIndex vt x < vtreeIndex vt y)
+    (hl : vt.lca 0 (vtreeIndex vt x) (vtreeIndex vt y) = vtreeIndex vt y) :
+    DepW (vt.leftLeaf? (vtreeIndex vt y)) x := by
+  intro w hw
+  obtain ⟨r', hr'⟩ := leftLeaf_sub hw
+  have hk := VTree.lca_rl (t := vt) (Nat.zero_le _) hlt (by rw [hl]; omega) (by rw [hl]; exact hr')
+  rw [hl] at hk
+  rw [← hk] at hr'
+  have hleaf := VTree.sub?_leftLeaf hr'
+  cases x with
+  | tru => simp [Ptr.isTrue] at hx1
+  | fls => simp [Ptr.isFalse] at hx2
+  | lit l pol =>
+    simp only [WF, VTree.hasVar, Option.isSome_iff_exists] at wx
+    obtain ⟨i, hi⟩ := wx
+    simp only [vtreeIndex, hi, Option.getD_some] at hleaf
+    have h2 := VTree.varIndex?_sub hi
+    rw [hleaf] at h2; cases h2
+    exact depOnly_lit _ _
+  | bdd c l i lo hi =>
+    obtain ⟨_, ⟨l', r'', h'⟩, _⟩ := wx
+    simp only [vtreeIndex] at hleaf
+    rw [hleaf] at h'; cases h'
+  | dec c i es =>
+    obtain ⟨⟨l', r'', h'⟩, _⟩ := wx
+    simp only [vtreeIndex] at hleaf
+    rw [hleaf] at h'; cases h'
+
+theorem andCore_ok {A : CacheImpl (Ptr × Ptr)} {vt : VTree} {cmpr : Bool} {andF : AndF A.σ}
+    (hand : AndOK (AppInv A vt) vt andF) {st st' : A.σ} {x y r : Ptr}
+    (hP : AppInv A vt st) (wx : WF vt x) (wy : WF vt y)
+    (hx1 : x.isTrue = false) (hx2 : x.isFalse = false)
+    (hy1 : y.isTrue = false) (hy2 : y.isFalse = false)
+    (hle : vtreeIndex vt x = vtreeIndex vt y ∨ vtreeIndex vt x < vtreeIndex vt y)
+    (h : andCore A vt cmpr andF st x y = some (st', r)) :
+    AppInv A vt st' ∧ WF vt r ∧ ∀ a, r.eval a = (x.eval a && y.eval a) := by
+  simp only [andCore] at h
+  split at h
+  · rename_i v hget
+    cases h
+    exact ⟨hP, hP _ _ hget⟩
+  · have hsx := vtreeIndex_sub wx hx1 hx2
+    have hsy := vtreeIndex_sub wy hy1 hy2
+    have core : ∀ {st1 : A.σ} {r1 : Ptr}, AppInv A vt st1 → WF vt r1 →
+        (∀ a, r1.eval a = (x.eval a && y.eval a)) →
+        AppInv A vt (A.insert st1 (x, y) r1) ∧ WF vt r1 ∧ ∀ a, r1.eval a = (x.eval a && y.eval a) :=
+      fun h1 h2 h3 => ⟨appInv_insert h1 h2 h3, h2, h3⟩
+    split at h
+    · cases h
+    · rename_i st1 r1 hr
+      cases h
+      split at hr
+      · -- same vtree node
+        rename_i heq
+        obtain ⟨sx, hsx'⟩ := hsx
+        rw [← heq, VTree.lca_self hsx'] at hr
+        obtain ⟨h1, h2, h3⟩ := andCartesian_ok hand hP wx wy heq hr
+        exact core h1 h2 h3
+      · rename_i hne
+        have hlt : vtreeIndex vt x < vtreeIndex vt y := by
+          rcases hle with h' | h'
+          · exact absurd h' hne
+          · exact h'
+        split at hr
+        · obtain ⟨h1, h2, h3⟩ := andSubDesc_ok hand hP wx wy hr
+          exact core h1 h2 h3
+        · rename_i hna
+          split at hr
+          · rename_i hb
+            have dd := primeDesc_dep wx hx1 hx2 hlt hb
+            obtain ⟨h1, h2, h3⟩ := andPrimeDesc_ok hand hP wy wx dd hr
+            exact core h1 h2 (fun a => by rw [h3, Bool.and_comm])
+          · simp only [Option.map_eq_some_iff] at hr
+            obtain ⟨r0, hr0, he⟩ := hr
+            cases he
+            obtain ⟨h2, h3⟩ := andIndep_ok wx wy hsx hsy hlt hna hr0
+            exact core hP h2 h3
+
+theorem andBody_ok {A : CacheImpl (Ptr × Ptr)} {vt : VTree} {cmpr : Bool} {andF : AndF A.σ}
+    (hand : AndOK (AppInv A vt) vt andF) : AndOK (AppInv A vt) vt (andBody A vt cmpr andF) := by
+  intro st a b st' r hP wa wb h
+  simp only [andBody] at h
+  split at h
+  · rename_i h1; cases h; exact ⟨hP, wb, fun asg => by simp [isTrue_eval h1]⟩
+  · rename_i ha1
+    split at h
+    · rename_i h1; cases h; exact ⟨hP, wa, fun asg => by simp [isTrue_eval h1]⟩
+    · rename_i hb1
+      split at h
+      · rename_i h1; cases h; exact ⟨hP, WF_fls vt, fun asg => by simp [isFalse_eval h1]⟩
+      · rename_i ha2
+        split at h
+        · rename_i h1; cases h; exact ⟨hP, WF_fls vt, fun asg => by simp [isFalse_eval h1]⟩
+        · rename_i hb2
+          split at h
+          · rename_i h1; cases h; subst h1; exact ⟨hP, wa, fun asg => by simp⟩
+          · split at h
+            · rename_i h1; cases h; subst h1; exact ⟨hP, WF_fls vt, fun asg => by simp⟩
+            · simp only [Bool.not_eq_true] at ha1 hb1 ha2 hb2
+              split at h
+              · rename_i hle
+                exact andCore_ok hand hP wa wb ha1 ha2 hb1 hb2 hle h
+              · rename_i hle
+                obtain ⟨h1, h2, h3⟩ := andCore_ok hand hP wb wa hb1 hb2 ha1 ha2 (by omega) h
+                exact ⟨h1, h2, fun asg => by rw [h3, Bool.and_comm]⟩
+
+/-- **`and` computes the conjunction**, keeps the apply-cache invariant and returns well formed
+pointers — for every lawful cache, every vtree, both compression settings, every fuel -/
+theorem and_ok (A : CacheImpl (Ptr × Ptr)) (vt : VTree) (cmpr : Bool) :
+    ∀ fuel, AndOK (AppInv A vt) vt (and A vt cmpr fuel)
+  | 0 => by intro st a b st' r _ _ _ h; simp [and] at h
+  | fuel + 1 => by
+    have := andBody_ok (cmpr := cmpr) (and_ok A vt cmpr fuel)
+    simpa [and] using this
+
+
+/-! ## `condition` -/
+
+section cond
+variable {σ : Type} {P : σ → Prop} {vt : VTree} {andF : AndF σ} {ow : Option Nat}
+
+def CondOK (P : σ → Prop) (vt : VTree) (x : Nat) (v : Bool)
+    (condF : σ → Ptr → Option (σ × Ptr)) : Prop :=
+  ∀ st f st' r, P st → WF vt f → condF st f = some (st', r) →
+    P st' ∧ WF vt r ∧ ∀ a, r.eval a = f.eval (upd a x v)
+
+theorem DepW_cond {p r : Ptr} {x : Nat} {v : Bool} (hp : DepW ow p)
+    (h : ∀ a, r.eval a = p.eval (upd a x v)) : DepW ow r := by
+  intro w hw a a' e
+  rw [h, h]
+  apply hp w hw
+  by_cases hwx : w = x
+  · subst hwx; simp
+  · simp [upd, hwx, e]
+
+def CondPost (vt : VTree) (ow : Option Nat) (x : Nat) (v : Bool) (es : List Elem) : LoopRes → Prop
+  | .elems l => ElemsOK vt ow l ∧ ∀ a, cnt (upd a x v) es ≤ 1 →
+      cnt a l = cnt (upd a x v) es ∧ evalElems a l = evalElems (upd a x v) es
+  | .early r => WF vt r ∧ (∀ a, 1 ≤ cnt (upd a x v) es) ∧
+      ∀ a, cnt (upd a x v) es ≤ 1 → r.eval a = evalElems (upd a x v) es
+
+theorem condLoop_ok {x : Nat} {v : Bool} {condF : σ → Ptr → Option (σ × Ptr)}
+    (hc : CondOK P vt x v condF) :
+    ∀ (es : List Elem) (st st' : σ) (res : LoopRes), P st → ElemsOK vt ow es →
+    condLoop condF st es = some (st', res) → P st' ∧ CondPost vt ow x v es res := by
+  intro es
+  induction es with
+  | nil =>
+    intro st st' res hP _ h
+    simp only [condLoop] at h
+    cases h
+    refine ⟨hP, ?_⟩
+    simp only [CondPost]
+    exact ⟨fun e he => (by cases he), fun a _ => (by simp)⟩
+  | cons e rest ih =>
+    intro st st' res hP hok h
+    obtain ⟨p, s⟩ := e
+    have hx := hok (p, s) (List.mem_cons_self ..)
+    have hrest : ElemsOK vt ow rest := fun e he => hok e (List.mem_cons_of_mem _ he)
+    simp only [condLoop] at h
+    split at h
+    · cases h
+    · rename_i st1 newp hp
+      obtain ⟨hP1, wnp, enp⟩ := hc _ _ _ _ hP hx.1 hp
+      split at h
+      · rename_i hf
+        have hpf : ∀ a, p.eval (upd a x v) = false := fun a => by
+          rw [← enp a]; exact isFalse_eval hf a
+        obtain ⟨hP', hres⟩ := ih _ _ _ hP1 hrest h
+        refine ⟨hP', ?_⟩
+        cases res with
+        | elems l =>
+          simp only [CondPost] at hres ⊢
+          refine ⟨hres.1, fun a ha => ?_⟩
+          rw [cnt_cons] at ha
+          obtain ⟨c, e⟩ := hres.2 a (by omega)
+          rw [c, e, cnt_cons, evalElems_cons]
+          simp [hpf a]
+        | early r =>
+          simp only [CondPost] at hres ⊢
+          refine ⟨hres.1, fun a => ?_, fun a ha => ?_⟩
+          · rw [cnt_cons]; have := hres.2.1 a; omega
+          · rw [cnt_cons] at ha
+            rw [hres.2.2 a (by omega), evalElems_cons]
+            simp [hpf a]
+      · split at h
+        · cases h
+        · rename_i st2 news hs
+          obtain ⟨hP2, wns, ens⟩ := hc _ _ _ _ hP1 hx.2.1 hs
+          split at h
+          · rename_i ht
+            cases h
+            have hpt : ∀ a, p.eval (upd a x v) = true := fun a => by
+              rw [← enp a]; exact isTrue_eval ht a
+            refine ⟨hP2, ?_⟩
+            simp only [CondPost]
+            refine ⟨wns, fun a => ?_, fun a ha => ?_⟩
+            · rw [cnt_cons]; simp [hpt a]
+            · rw [cnt_cons] at ha
+              simp only [hpt a, if_true] at ha
+              have h0 : cnt (upd a x v) rest = 0 := by omega
+              rw [ens, evalElems_cons, evalElems_of_cnt_zero h0]
+              simp [hpt a]
+          · have dnp : DepW ow newp := DepW_cond hx.2.2 enp
+            split at h
+            · cases h
+            · rename_i st3 r hrec
+              cases h
+              obtain ⟨hP', hres⟩ := ih _ _ _ hP2 hrest hrec
+              refine ⟨hP', ?_⟩
+              simp only [CondPost] at hres ⊢
+              refine ⟨hres.1, fun a => ?_, fun a ha => ?_⟩
+              · rw [cnt_cons]; have := hres.2.1 a; omega
+              · rw [cnt_cons] at ha
+                have h1 := hres.2.1 a
+                rw [hres.2.2 a (by omega), evalElems_cons]
+                cases hpa : p.eval (upd a x v)
+                · simp
+                · simp only [hpa, if_true] at ha; omega
+            · rename_i st3 l hrec
+              cases h
+              obtain ⟨hP', hres⟩ := ih _ _ _ hP2 hrest hrec
+              refine ⟨hP', ?_⟩
+              simp only [CondPost] at hres ⊢
+              refine ⟨?_, fun a ha => ?_⟩
+              · intro e he
+                rcases List.mem_cons.1 he with rfl | h'
+                · exact ⟨wnp, wns, dnp⟩
+                · exact hres.1 e h'
+              · rw [cnt_cons] at ha
+                obtain ⟨c, e⟩ := hres.2 a (by omega)
+                rw [cnt_cons, evalElems_cons, c, e, cnt_cons, evalElems_cons, enp, ens]
+                exact ⟨rfl, rfl⟩
+
+theorem condition_ok (hand : AndOK P vt andF) (cmpr : Bool) (x : Nat) (v : Bool) :
+    ∀ n, CondOK P vt x v (condition cmpr andF x v n)
+  | 0 => by intro st f st' r _ _ h; simp [condition] at h
+  | n + 1 => by
+    have ih := condition_ok hand cmpr x v n
+    intro st f st' r hP wf h
+    have node : ∀ (es : List Elem) (i : Nat), f.elems? = some es → vtreeIndex vt f = i →
+        (match condLoop (condition cmpr andF x v n) st es with
+          | none => none
+          | some (st', .early r) => some (st', r)
+          | some (st', .elems es') => canonicalize cmpr andF st' es' i) = some (st', r) →
+        P st' ∧ WF vt r ∧ ∀ a, r.eval a = f.eval (upd a x v) := by
+      intro es i hes hi h
+      subst hi
+      obtain ⟨hok, hpart, hint, hev⟩ := elems?_ok wf hes
+      split at h
+      · cases h
+      · rename_i st1 r1 hloop
+        cases h
+        obtain ⟨hP1, hpost⟩ := condLoop_ok ih _ _ _ _ hP hok hloop
+        simp only [CondPost] at hpost
+        refine ⟨hP1, hpost.1, fun a => ?_⟩
+        rw [hpost.2.2 a (by rw [hpart]; exact Nat.le_refl 1), hev]
+      · rename_i st1 l hloop
+        obtain ⟨hP1, hpost⟩ := condLoop_ok ih _ _ _ _ hP hok hloop
+        simp only [CondPost] at hpost
+        have hsem := fun a => hpost.2 a (by rw [hpart]; exact Nat.le_refl 1)
+        have hpl : Partition l := fun a => by rw [(hsem a).1]; exact hpart _
+        obtain ⟨hP', wr, er⟩ := canonicalize_ok hand hP1 hpost.1 hpl hint h
+        exact ⟨hP', wr, fun a => by rw [er, (hsem a).2, hev]⟩
+    cases f with
+    | tru => simp only [condition] at h; cases h; exact ⟨hP, WF_tru vt, fun a => by simp⟩
+    | fls => simp only [condition] at h; cases h; exact ⟨hP, WF_fls vt, fun a => by simp⟩
+    | lit l p =>
+      simp only [condition] at h
+      cases h
+      refine ⟨hP, ?_, fun a => ?_⟩
+      · split
+        · split
+          · exact WF_tru vt
+          · exact WF_fls vt
+        · exact wf
+      · split
+        · rename_i hl; subst hl
+          cases p <;> cases v <;> simp [eval_lit]
+        · rename_i hl; simp [eval_lit, upd, hl]
+    | bdd c l i lo hi =>
+      simp only [condition] at h
+      exact node _ i rfl rfl h
+    | dec c i es =>
+      simp only [condition] at h
+      exact node _ i rfl rfl h
+
+end cond
+
+
+/-! ## `ite` and the derived operations -/
+
+/-- ite-cache invariant -/
+def IteInv (I : CacheImpl (Ptr × Ptr × Ptr)) (vt : VTree) (s : I.σ) : Prop :=
+  ∀ k r, I.get s k = some r →
+    WF vt r ∧ ∀ a, r.eval a = iteB (k.1.eval a) (k.2.1.eval a) (k.2.2.eval a)
+
+theorem iteInv_empty (I : CacheImpl (Ptr × Ptr × Ptr)) (vt : VTree) : IteInv I vt I.empty := by
+  intro k r h; rw [I.empty_get] at h; cases h
+
+theorem iteCacheGet_ok {I : CacheImpl (Ptr × Ptr × Ptr)} {vt : VTree} {s : I.σ} {key : Ite} {v : Ptr}
+    (hs : IteInv I vt s) (hk : ∀ p, key ≠ .const p) (h : iteCacheGet I s key = some v) :
+    WF vt v ∧ ∀ a, v.eval a = key.eval a := by
+  cases key with
+  | choice f g h' =>
+    obtain ⟨w, e⟩ := hs _ _ h
+    exact ⟨w, fun a => by rw [e]; rfl⟩
+  | complChoice f g h' =>
+    simp only [iteCacheGet, Option.map_eq_some_iff] at h
+    obtain ⟨v0, h0, rfl⟩ := h
+    obtain ⟨w, e⟩ := hs _ _ h0
+    exact ⟨WF_neg w, fun a => by rw [eval_neg, e]; rfl⟩
+  | const p => exact absurd rfl (hk p)
+
+theorem iteCacheInsert_ok {I : CacheImpl (Ptr × Ptr × Ptr)} {vt : VTree} {s : I.σ} {key : Ite}
+    {r : Ptr} (hs : IteInv I vt s) (wr : WF vt r) (er : ∀ a, r.eval a = key.eval a) :
+    IteInv I vt (iteCacheInsert I s key r) := by
+  cases key with
+  | choice f g h' =>
+    intro k' r' h
+    rcases I.lawful _ _ _ _ _ h with ⟨rfl, rfl⟩ | h'
+    · exact ⟨wr, fun a => by rw [er]; rfl⟩
+    · exact hs _ _ h'
+  | complChoice f g h' =>
+    intro k' r' h
+    rcases I.lawful _ _ _ _ _ h with ⟨rfl, rfl⟩ | h'
+    · refine ⟨WF_neg wr, fun a => ?_⟩
+      rw [eval_neg, er]; simp [Ite.eval]
+    · exact hs _ _ h'
+  | const p => exact hs
+
+theorem iteNew_const_WF {vt : VTree} {ord} {f g h r : Ptr} (wf : WF vt f) (wg : WF vt g)
+    (wh : WF vt h) (hr : Ite.new ord f g h = .const r) : WF vt r := by
+  have hi : WF vt (introConst f g h).1 ∧ WF vt (introConst f g h).2.1 ∧
+      WF vt (introConst f g h).2.2 := by
+    simp only [introConst]
+    split
+    · exact ⟨wf, wg, WF_fls vt⟩
+    · split
+      · exact ⟨wf, wg, WF_tru vt⟩
+      · split
+        · exact ⟨wf, WF_fls vt, wh⟩
+        · exact ⟨wf, wg, wh⟩
+  simp only [Ite.new] at hr
+  generalize introConst f g h = t at hi hr
+  obtain ⟨f1, g1, h1⟩ := t
+  simp only at hi hr
+  split at hr
+  · rename_i r0 ht
+    cases hr
+    simp only [terminal?] at ht
+    split at ht
+    · cases ht; exact hi.2.1
+    · split at ht
+      · cases ht; exact hi.2.2
+      · split at ht
+        · cases ht; exact hi.1
+        · split at ht
+          · cases ht; exact WF_neg hi.1
+          · split at ht
+            · cases ht; exact hi.2.1
+            · cases ht
+  · generalize reorder ord f1 g1 h1 = t2 at hr
+    obtain ⟨f2, g2, h2⟩ := t2
+    simp only [standardise] at hr
+    split at hr
+    · cases hr
+    · split at hr
+      · cases hr
+      · split at hr <;> cases hr
+
+section derived
+variable (A : CacheImpl (Ptr × Ptr)) (I : CacheImpl (Ptr × Ptr × Ptr)) (cfg : Config) (fuel : Nat)
+
+theorem bAnd_ok : AndOK (AppInv A cfg.vt) cfg.vt (bAnd A cfg fuel) :=
+  and_ok A cfg.vt cfg.compress fuel
+
+theorem bOr_ok {st a b st' r} (hP : AppInv A cfg.vt st) (wa : WF cfg.vt a) (wb : WF cfg.vt b)
+    (h : bOr A cfg fuel st a b = some (st', r)) :
+    AppInv A cfg.vt st' ∧ WF cfg.vt r ∧ ∀ asg, r.eval asg = (a.eval asg || b.eval asg) :=
+  orF_ok (bAnd_ok A cfg fuel) hP wa wb h
+
+theorem bCond_ok {st f st' r} {x : Nat} {v : Bool} (hP : AppInv A cfg.vt st) (wf : WF cfg.vt f)
+    (h : bCond A cfg fuel st f x v = some (st', r)) :
+    AppInv A cfg.vt st' ∧ WF cfg.vt r ∧ ∀ asg, r.eval asg = f.eval (upd asg x v) :=
+  condition_ok (bAnd_ok A cfg fuel) cfg.compress x v fuel _ _ _ _ hP wf h
+
+theorem bIte_ok {s s' : A.σ × I.σ} {f g h r : Ptr}
+    (hA : AppInv A cfg.vt s.1) (hI : IteInv I cfg.vt s.2)
+    (wf : WF cfg.vt f) (wg : WF cfg.vt g) (wh : WF cfg.vt h)
+    (hr : bIte A I cfg fuel s f g h = some (s', r)) :
+    AppInv A cfg.vt s'.1 ∧ IteInv I cfg.vt s'.2 ∧ WF cfg.vt r ∧
+      ∀ a, r.eval a = iteB (f.eval a) (g.eval a) (h.eval a) := by
+  have hsound := iteNew_sound (primeOrd cfg.vt) f g h
+  simp only [bIte] at hr
+  generalize hk : Ite.new (primeOrd cfg.vt) f g h = key at hr hsound
+  have main : ∀ (hnc : ∀ p, key ≠ .const p),
+      (match iteCacheGet I s.2 key with
+        | some v => some (s, v)
+        | none =>
+          match bAnd A cfg fuel s.1 f g with
+          | none => none
+          | some (a1, fg) =>
+            match bAnd A cfg fuel a1 f.neg h with
+            | none => none
+            | some (a2, nfh) =>
+              match bOr A cfg fuel a2 fg nfh with
+              | none => none
+              | some (a3, r) => some ((a3, iteCacheInsert I s.2 key r), r)) = some (s', r) →
+      AppInv A cfg.vt s'.1 ∧ IteInv I cfg.vt s'.2 ∧ WF cfg.vt r ∧
+        ∀ a, r.eval a = iteB (f.eval a) (g.eval a) (h.eval a) := by
+    intro hnc hr
+    split at hr
+    · rename_i v hget
+      cases hr
+      obtain ⟨w, e⟩ := iteCacheGet_ok hI hnc hget
+      exact ⟨hA, hI, w, fun a => by rw [e, hsound]⟩
+    · split at hr
+      · cases hr
+      · rename_i a1 fg h1
+        obtain ⟨hA1, wfg, efg⟩ := bAnd_ok A cfg fuel _ _ _ _ _ hA wf wg h1
+        split at hr
+        · cases hr
+        · rename_i a2 nfh h2
+          obtain ⟨hA2, wnfh, enfh⟩ := bAnd_ok A cfg fuel _ _ _ _ _ hA1 (WF_neg wf) wh h2
+          split at hr
+          · cases hr
+          · rename_i a3 r3 h3
+            cases hr
+            obtain ⟨hA3, wr, er⟩ := bOr_ok A cfg fuel hA2 wfg wnfh h3
+            have er' : ∀ a, r.eval a = iteB (f.eval a) (g.eval a) (h.eval a) := by
+              intro a; rw [er, efg, enfh, eval_neg]
+              cases f.eval a <;> simp [iteB]
+            exact ⟨hA3, iteCacheInsert_ok hI wr (fun a => by rw [er', hsound]), wr, er'⟩
+  cases key with
+  | const p =>
+    simp only at hr
+    cases hr
+    exact ⟨hA, hI, iteNew_const_WF wf wg wh hk, fun a => by rw [← hsound]; rfl⟩
+  | choice f' g' h' => exact main (fun p hp => by cases hp) hr
+  | complChoice f' g' h' => exact main (fun p hp => by cases hp) hr
+
+theorem bIff_ok {s s' : A.σ × I.σ} {f g r : Ptr}
+    (hA : AppInv A cfg.vt s.1) (hI : IteInv I cfg.vt s.2) (wf : WF cfg.vt f) (wg : WF cfg.vt g)
+    (hr : bIff A I cfg fuel s f g = some (s', r)) :
+    AppInv A cfg.vt s'.1 ∧ IteInv I cfg.vt s'.2 ∧ WF cfg.vt r ∧
+      ∀ a, r.eval a = (f.eval a == g.eval a) := by
+  obtain ⟨h1, h2, h3, h4⟩ := bIte_ok A I cfg fuel hA hI wf wg (WF_neg wg) hr
+  refine ⟨h1, h2, h3, fun a => ?_⟩
+  rw [h4, eval_neg]; cases f.eval a <;> cases g.eval a <;> rfl
+
+theorem bXor_ok {s s' : A.σ × I.σ} {f g r : Ptr}
+    (hA : AppInv A cfg.vt s.1) (hI : IteInv I cfg.vt s.2) (wf : WF cfg.vt f) (wg : WF cfg.vt g)
+    (hr : bXor A I cfg fuel s f g = some (s', r)) :
+    AppInv A cfg.vt s'.1 ∧ IteInv I cfg.vt s'.2 ∧ WF cfg.vt r ∧
+      ∀ a, r.eval a = xor (f.eval a) (g.eval a) := by
+  obtain ⟨h1, h2, h3, h4⟩ := bIte_ok A I cfg fuel hA hI wf (WF_neg wg) wg hr
+  refine ⟨h1, h2, h3, fun a => ?_⟩
+  rw [h4, eval_neg]; cases f.eval a <;> cases g.eval a <;> rfl
+
+theorem bExists_ok {st st' : A.σ} {f r : Ptr} {x : Nat} (hP : AppInv A cfg.vt st)
+    (wf : WF cfg.vt f) (h : bExists A cfg fuel st f x = some (st', r)) :
+    AppInv A cfg.vt st' ∧ WF cfg.vt r ∧
+      ∀ a, r.eval a = (f.eval (upd a x true) || f.eval (upd a x false)) := by
+  simp only [bExists] at h
+  split at h
+  · cases h
+  · rename_i s1 v1 h1
+    obtain ⟨hP1, w1, e1⟩ := bCond_ok A cfg fuel hP wf h1
+    split at h
+    · cases h
+    · rename_i s2 v2 h2
+      obtain ⟨hP2, w2, e2⟩ := bCond_ok A cfg fuel hP1 wf h2
+      obtain ⟨hP3, w3, e3⟩ := bOr_ok A cfg fuel hP2 w1 w2 h
+      exact ⟨hP3, w3, fun a => by rw [e3, e1, e2]⟩
+
+theorem bCompose_ok {s s' : A.σ × I.σ} {f g r : Ptr} {x : Nat}
+    (hA : AppInv A cfg.vt s.1) (hI : IteInv I cfg.vt s.2) (hx : cfg.vt.hasVar x = true)
+    (wf : WF cfg.vt f) (wg : WF cfg.vt g)
+    (hr : bCompose A I cfg fuel s f x g = some (s', r)) :
+    AppInv A cfg.vt s'.1 ∧ IteInv I cfg.vt s'.2 ∧ WF cfg.vt r ∧
+      ∀ a, r.eval a = fCompose (fun a => f.eval a) x (fun a => g.eval a) a := by
+  simp only [bCompose] at hr
+  split at hr
+  · cases hr
+  · rename_i s1 i h1
+    obtain ⟨hA1, hI1, wi, ei⟩ := bIff_ok A I cfg fuel hA hI (f := .lit x true) (by simpa [WF] using hx) wg h1
+    split at hr
+    · cases hr
+    · rename_i a2 c h2
+      obtain ⟨hA2, wc, ec⟩ := bAnd_ok A cfg fuel _ _ _ _ _ hA1 wi wf h2
+      split at hr
+      · cases hr
+      · rename_i a3 r3 h3
+        cases hr
+        obtain ⟨hA3, wr, er⟩ := bExists_ok A cfg fuel hA2 wc h3
+        refine ⟨hA3, hI1, wr, fun a => ?_⟩
+        rw [er, ec, ec, ei, ei]
+        simp [fCompose, fExists, fAnd, fIff, fVar, eval_lit]
+
+end derived
+
 end Sdd
